@@ -344,15 +344,21 @@ def active():
 
 
 class CoLock:
+    """Cooperative under the scheduler; a real lock for callers outside it (free-running parts of a
+    driver, threads the scheduler does not own)."""
+
     def __init__(self):
         self.owner = None
+        self._real = threading.Lock()
 
     def acquire(self, blocking=True, timeout=-1):
         s = _ACTIVE
         me = s.me() if s else None
         if s is None or me is None:
-            self.owner = "ext"
-            return True
+            ok = self._real.acquire(blocking, timeout)
+            if ok:
+                self.owner = "ext"
+            return ok
         if not blocking:
             if self.owner is None:
                 self.owner = me
@@ -365,7 +371,11 @@ class CoLock:
         return True
 
     def release(self):
-        self.owner = None
+        if self.owner == "ext":
+            self.owner = None
+            self._real.release()
+        else:
+            self.owner = None
 
     def locked(self):
         return self.owner is not None
